@@ -333,7 +333,7 @@ impl Sim {
                 },
                 &[],
                 "factory",
-                None,
+                Some(cfg.owner.clone()),
             )
             .expect("factory instantiation")
             .to_string();
@@ -347,7 +347,7 @@ impl Sim {
                 },
                 &[],
                 "router",
-                None,
+                Some(cfg.owner.clone()),
             )
             .expect("router instantiation")
             .to_string();
@@ -708,6 +708,11 @@ impl Sim {
                 },
                 vec![],
             )],
+            Op::Migrate { target, code_id } => vec![CosmosMsg::Wasm(WasmMsg::Migrate {
+                contract_addr: m.addr(target).ok_or("dangling target")?,
+                new_code_id: *code_id,
+                msg: Binary::from(b"{}".as_slice()),
+            })],
             Op::Raw { target, msg, funds } => vec![CosmosMsg::Wasm(WasmMsg::Execute {
                 contract_addr: m.addr(target).ok_or("dangling target")?,
                 msg: Binary::from(msg.as_bytes()),
